@@ -1,7 +1,7 @@
 // C15: predicates tell the truth (isZero, checkOverlap, ==, !=).
 #include "lib.h"
 using namespace vf;
-using S = QP;
+using S = vf::DefaultScalar;
 
 template <size_t o>
 static void zero_cases(Harness &H, const std::string &d0, const Grid<S> &g, const std::vector<mpq_class> &pts, Win w) {
